@@ -40,8 +40,22 @@ def gen_case(rng):
     desc["idx"] = idx
     desc["tmin"] = {i: rng.choice([-1.0, 10.0, 0.0, 300.0]) for i in range(n)}
     desc["tmax"] = {i: rng.choice([-1.0, 300.0, 41000.0, 0.0]) for i in range(n)}
-    present = sorted(set(v for v in idx.values() if v != -1)) or [0, 1]
     keys = set()
+    if rng.random() < 0.3 and n >= 1:
+        # the same process listed twice (two fits, two sources) under different indices, same window: the reactions compare equal,
+        # the modifier names the LATER one
+        j = rng.randrange(n)
+        desc["reactions"] = list(desc["reactions"]) + [desc["reactions"][j]]
+        idx[n] = 900 + n
+        if idx[j] == -1 and mode != "unindexed":
+            idx[j] = 800 + j
+        if mode == "unindexed":
+            idx[n] = -1
+        desc["tmin"][n], desc["tmax"][n] = desc["tmin"][j], desc["tmax"][j]
+        if idx[n] != -1:
+            keys.add(idx[n])
+        n += 1
+    present = sorted(set(v for v in idx.values() if v != -1)) or [0, 1]
     for _ in range(rng.randint(0, 3)):
         r = rng.random()
         if r < 0.6:
